@@ -25,6 +25,7 @@ RULE = ("every numeric option / constant over its boundary lattice (below, "
         "the documented table (refs/settings_spec.py).  Non-trivial = a "
         "value on or next to a domain boundary or a derived partner; "
         "distinct = (setting(s), lattice position(s))")
+RULE += ("  Also: lattice positions 'fraction' (0.5 for sizes / budgets) and 'nan'; unknown constant names equal to internal parameter names; nb_points below n+1 combined with exits during the initial sampling (a ValueError raised only after user functions were called is a violation); nb_points against the number of FREE variables; all-fixed / inconsistent bounds with invalid settings; the same options dict object reused for two calls.")
 ASSUMPTIONS = [
     "the documented table (domains, defaults, relations) is transcribed "
     "from the minimize docstring, settings.py and the error messages",
